@@ -203,6 +203,7 @@ func (p *Path) proves(c *Term) bool {
 	if p.knobs["no_solver_simplify"] != 0 {
 		return false
 	}
+	p.ensureSync()
 	s := p.w.inc
 	s.Push()
 	s.Assert(Not(c))
